@@ -48,6 +48,12 @@ def run(ctx):
                                                  'velocity_weight', 'spatio_temporal_constraints', 'method',
                                                  'min_confidence', 'shards'}), 60)
     ctx.rule('R06.4', 'shared id counter: increment and read under one write access (necessary for one result per scene)')
+    import storelib as S
+    ctx.rule('R06.6', 'both front ends see the complete distance stream (lazy into_iter() consumer of the batch path '
+             'included) and size the assignment by the tracks stored at voting time')
+    n = S.rule_consumers(ctx, 'R06.6')
+    n += M.rule_voting_threshold(ctx, 'R06.6')
+    ctx.floor('R06.6', n, 8)
 
 
 def sent_agg(body, eb, c, suffix):
